@@ -35,6 +35,7 @@ def dispatch (stream : String) (toks : List String) : Verdict :=
   | "build" => runP build toks
   | "std" => runP stdCase toks
   | "stdall" => runP stdAllCase toks
+  | "twins" => runP twinsCase toks
   | "meta" => runP metaCase toks
   | "tinfo" => runP tinfoCase toks
   | "derive" => runP deriveCase toks
